@@ -165,3 +165,167 @@ Definition show (c : case) :=
 
 (* generated case files spell printable texts as Coq string literals: (bs "..."%string) *)
 From Coq Require Export Strings.String.
+
+(* ---- the clause level (appended): Serde/Clause.v printer and Serde/ClauseParse.v parser
+   against Clause.String and parse.Clause ------------------------------------------------ *)
+From MV Require Export Serde.Clause Serde.ClauseParse.
+
+(* a clause as the check describes it (built on the Go side with the public constructors)
+   and as parse.Clause returned it: base terms are [gterm]s *)
+Inductive gprem :=
+| GPAtom (n : list Z) (args : list gterm)
+| GPNeg (n : list Z) (args : list gterm)
+| GPEq (l r : gterm)
+| GPIneq (l r : gterm).
+Inductive gstmt := GStmt (v : option (list Z)) (fn : list Z) (args : list gterm).
+Record gclause := GClause {
+  g_sym : list Z; g_args : list gterm; g_prem : option (list gprem); g_trans : list (list gstmt) }.
+
+Fixpoint to_bexp (g : gterm) : bexp :=
+  match g with
+  | GVar x => BVar x
+  | GConst e => BConst (build e)
+  | GApply n l => BApp n (map to_bexp l)
+  end.
+Definition to_premise (p : gprem) : premise :=
+  match p with
+  | GPAtom n a => LAtom (CAtom n (map to_bexp a))
+  | GPNeg n a => LNeg (CAtom n (map to_bexp a))
+  | GPEq l r => LEq (to_bexp l) (to_bexp r)
+  | GPIneq l r => LIneq (to_bexp l) (to_bexp r)
+  end.
+Definition to_stmt (s : gstmt) : tstmt := match s with GStmt v fn a => TStmt v fn (map to_bexp a) end.
+Definition to_clause (c : gclause) : clause :=
+  Clause (CAtom (g_sym c) (map to_bexp (g_args c))) (option_map (map to_premise) (g_prem c))
+         (map (map to_stmt) (g_trans c)).
+
+Definition to_pprem (p : gprem) : pprem :=
+  match p with
+  | GPAtom n a => QAtom n (map to_pterm a)
+  | GPNeg n a => QNeg n (map to_pterm a)
+  | GPEq l r => QEq (to_pterm l) (to_pterm r)
+  | GPIneq l r => QIneq (to_pterm l) (to_pterm r)
+  end.
+Definition to_pstmt (s : gstmt) : pstmt := match s with GStmt v fn a => PStmt v fn (map to_pterm a) end.
+Definition to_pclause (c : gclause) : pclause :=
+  PClause (g_sym c) (map to_pterm (g_args c)) (option_map (map to_pprem) (g_prem c))
+          (map (map to_pstmt) (g_trans c)).
+
+Section ListEq.
+  Context {A B : Type} (eqb : A -> B -> bool).
+  Fixpoint list_eqb2 (l : list A) (k : list B) : bool :=
+    match l, k with
+    | [], [] => true
+    | x :: l', y :: k' => eqb x y && list_eqb2 l' k'
+    | _, _ => false
+    end.
+End ListEq.
+Definition opt_eqb2 {A B} (eqb : A -> B -> bool) (a : option A) (b : option B) : bool :=
+  match a, b with Some x, Some y => eqb x y | None, None => true | _, _ => false end.
+
+(* structural equality of parse results *)
+Definition pprem_eqb (a b : pprem) : bool :=
+  match a, b with
+  | QAtom n l, QAtom m k => bytes_eqb n m && list_eqb2 pterm_eqb l k
+  | QNeg n l, QNeg m k => bytes_eqb n m && list_eqb2 pterm_eqb l k
+  | QEq l r, QEq l' r' => pterm_eqb l l' && pterm_eqb r r'
+  | QIneq l r, QIneq l' r' => pterm_eqb l l' && pterm_eqb r r'
+  | _, _ => false
+  end.
+Definition pstmt_eqb (a b : pstmt) : bool :=
+  opt_eqb2 bytes_eqb (ps_var a) (ps_var b) && bytes_eqb (ps_fn a) (ps_fn b)
+  && list_eqb2 pterm_eqb (ps_args a) (ps_args b).
+Definition pclause_eqb (a b : pclause) : bool :=
+  bytes_eqb (pc_sym a) (pc_sym b) && list_eqb2 pterm_eqb (pc_args a) (pc_args b)
+  && opt_eqb2 (list_eqb2 pprem_eqb) (pc_prem a) (pc_prem b)
+  && list_eqb2 (list_eqb2 pstmt_eqb) (pc_trans a) (pc_trans b).
+
+(* the decidable form of ClauseParse.clause_denotes with ev = evalT: does the parsed clause
+   denote the described one? *)
+Fixpoint exp_matches (t : tables) (e : gterm) (p : pterm) {struct e} : bool :=
+  match e with
+  | GVar x => match p with PVar y => bytes_eqb x y | _ => false end
+  | GConst c => match evalT t p with Some c' => const_eqb c' (build c) | None => false end
+  | GApply n l =>
+      match p with
+      | PApply m k =>
+          bytes_eqb n m &&
+          (fix go (l : list gterm) (k : list pterm) : bool :=
+             match l, k with
+             | [], [] => true
+             | x :: l', y :: k' => exp_matches t x y && go l' k'
+             | _, _ => false
+             end) l k
+      | _ => false
+      end
+  end.
+Definition prem_matches (t : tables) (p : gprem) (q : pprem) : bool :=
+  match p, q with
+  | GPAtom n a, QAtom m l => bytes_eqb n m && list_eqb2 (exp_matches t) a l
+  | GPNeg n a, QNeg m l => bytes_eqb n m && list_eqb2 (exp_matches t) a l
+  | GPEq x y, QEq u v => exp_matches t x u && exp_matches t y v
+  | GPIneq x y, QIneq u v => exp_matches t x u && exp_matches t y v
+  | _, _ => false
+  end.
+Definition stmt_matches (t : tables) (s : gstmt) (q : pstmt) : bool :=
+  match s with
+  | GStmt v fn a => opt_eqb2 bytes_eqb v (ps_var q) && bytes_eqb fn (ps_fn q) && list_eqb2 (exp_matches t) a (ps_args q)
+  end.
+Definition clause_matches (t : tables) (c : gclause) (q : pclause) : bool :=
+  bytes_eqb (g_sym c) (pc_sym q) && list_eqb2 (exp_matches t) (g_args c) (pc_args q)
+  && opt_eqb2 (list_eqb2 (prem_matches t)) (g_prem c) (pc_prem q)
+  && list_eqb2 (list_eqb2 (stmt_matches t)) (g_trans c) (pc_trans q).
+
+Definition print_clauseT (t : tables) : clause -> list Z :=
+  print_clause (flookup (t_float t)) (flookup (t_time t)) (flookup (t_dur t)).
+Definition parse_clauseT (t : tables) : list Z -> res pclause := parse_clause_text (plookup (p_float t)).
+(* one clause, then nothing but blanks and comments (what parse.Unit asks for) *)
+Definition parse_unitT (t : tables) (s : list Z) : res pclause :=
+  match parse_clauseT t s with
+  | ROk q rest => match next_token rest with LEof => ROk q [] | _ => RErr end
+  | e => e
+  end.
+
+Inductive ccase :=
+(* the clause c built with the public constructors printed as text; parse.Clause(text)
+   returned go (None = error) *)
+| KClause (t : tables) (c : gclause) (text : list Z) (go : option gclause)
+(* parse.Unit on a text: Some = exactly one clause and nothing else *)
+| KClauseText (t : tables) (text : list Z) (go : option gclause).
+
+(* codes: 0 agreement. 1 model parser rejects what Go accepts, 2 model parser accepts what Go
+   rejects, 3 both accept, different trees, 4 model printer differs from Clause.String,
+   5 model parser and Go both reject the printed text, 7 the clause the model parser read
+   does not denote the printed one (the model round trip fails), 8 the text uses syntax
+   outside the model (temporal), 9 out of fuel. *)
+Definition judge_clause (c : ccase) : Z :=
+  match c with
+  | KClause t c text go =>
+      if negb (bytes_eqb (print_clauseT t (to_clause c)) text) then 4 else
+      match parse_clauseT t text, go with
+      | RFuel, _ => 9
+      | RUnsup, _ => 8
+      | RErr, None => 5
+      | RErr, Some _ => 1
+      | ROk _ _, None => 2
+      | ROk q _, Some g =>
+          if negb (pclause_eqb q (to_pclause g)) then 3
+          else if clause_matches t c q then 0 else 7
+      end
+  | KClauseText t text go =>
+      match parse_unitT t text, go with
+      | RFuel, _ => 9
+      | RUnsup, _ => 8
+      | RErr, None => 0
+      | RErr, Some _ => 1
+      | ROk _ _, None => 2
+      | ROk q _, Some g => if pclause_eqb q (to_pclause g) then 0 else 3
+      end
+  end.
+
+(* model outputs for a replay file *)
+Definition show_clause (c : ccase) :=
+  match c with
+  | KClause t c text _ => (parse_clauseT t text, print_clauseT t (to_clause c))
+  | KClauseText t text _ => (parse_unitT t text, @nil Z)
+  end.
